@@ -134,12 +134,13 @@ def __init__(self, env, rate, weights, flow2class=lambda f: f, debug=False):
     self.action = env.process(self.run(env))
 ''')
 
-spec('WFQ', 'update_vtime', what='V += (now - last_time) / sum of the weights of the backlogged classes')('''
+spec('WFQ', 'update_vtime', what='V += (now - last_time) / sum of the weights of the backlogged classes, added up in configuration order')('''
 def update_vtime(self):
     weight_sum = 0.0
     now = self.env.now
-    for i in self.active_set:
-        weight_sum += self.weights[i]
+    for i in self.weights:
+        if i in self.active_set:
+            weight_sum += self.weights[i]
     self.vtime += (now - self.last_time) / weight_sum
 ''')
 
@@ -150,10 +151,14 @@ def reset_vtime(self):
         self.finish_times[class_id] = 0.0
 ''')
 
-spec('WFQ', 'run', what='pop the smallest stamp, serve it (transmission plus departure bookkeeping, awaited)')('''
+spec('WFQ', 'run', what='wait for a packet; in the step in which the transmission is started choose the smallest stamp '
+                        '*again* (the wait was granted at least one step earlier and arrivals of that instant may carry a '
+                        'smaller stamp); serve it (transmission plus departure bookkeeping, awaited)')('''
 def run(self, env):
     while True:
         item = yield self.store.get()
+        self.store.put(item)
+        item = self.store.get().value
         yield env.process(self.serve(item.item))
 ''')
 
@@ -205,10 +210,13 @@ def __init__(self, env, rate, vticks, flow2class=lambda fid: fid, debug=False):
     self.proc = env.process(self.run(env))
 ''')
 
-spec('VC', 'run', what='pop the smallest stamp, unwrap, transmit (awaited)')('''
+spec('VC', 'run', what='wait for a packet; choose the smallest stamp again in the step in which the transmission is '
+                       'started; unwrap, transmit (awaited)')('''
 def run(self, env):
     while True:
         item = yield self.store.get()
+        self.store.put(item)
+        item = self.store.get().value
         yield env.process(self.send_packet(item.item))
 ''')
 
